@@ -296,6 +296,52 @@ theorem Acct.releaseOld {s : Proc} {g : Ghost} {k : Nat} (h : Acct s g (k + 1)) 
   simp only
   omega
 
+theorem enqueueBlock_w {P : Params} {s s' : Proc} {b : Blk} (h : enqueueBlock P s b = .ok s') : s'.w = s.w := by
+  unfold enqueueBlock at h
+  split at h
+  · cases h
+  · simp only [Except.ok.injEq] at h; rw [← h]
+
+theorem makeRoom_w {P : Params} {s s' : Proc} {len : Nat} (h : BlockProc.makeRoom P s len = .ok s') : s'.w = s.w := by
+  unfold BlockProc.makeRoom at h
+  split at h
+  · split at h
+    · have := enqueueBlock_w h; exact this
+    · simp only [Except.ok.injEq] at h; rw [← h]
+  · simp only [Except.ok.injEq] at h; rw [← h]
+
+theorem insert_w {P : Params} {d : Bytes} {new : Chunk} : ∀ (l pre : List Chunk) {s s' : Proc},
+    BlockProc.insert P s d new pre l = .ok s' → s'.w = s.w := by
+  intro l
+  induction l with
+  | nil => intro pre s s' h; simp only [BlockProc.insert, Except.ok.injEq] at h; rw [← h]
+  | cons c rest ih =>
+    intro pre s s' h
+    unfold BlockProc.insert at h
+    split at h
+    · cases h
+    · simp only [Except.ok.injEq] at h; rw [← h]
+    · have := ih _ h; exact this
+
+theorem inodes_length_storeFrag {P : Params} {s s' : Proc} {x : Blk} (h : BlockProc.storeFrag P s x = .ok s') :
+    s'.w.inodes.length = s.w.inodes.length := by
+  unfold BlockProc.storeFrag at h
+  split at h
+  · cases h
+  · rename_i s2 hmr
+    have h2 := makeRoom_w hmr
+    simp only at h
+    split at h
+    · cases h
+    · rename_i s4 hins
+      have h4 := insert_w _ _ hins
+      have hp : (placeFrag s2 x).1.w.inodes = s2.w.inodes := by unfold placeFrag; split <;> rfl
+      simp only [Except.ok.injEq] at h
+      rw [← h]
+      split
+      · simp only [modInode_length, h4, hp, h2]
+      · simp only [releaseOldBlock, modInode_length, h4, hp, h2]
+
 /-- a fragment that was not found in the table is stored -/
 theorem Back.storeFrag {P : Params} (hP : P.ans = serialAns) (hc : CodecOk P.codec) (hB : P.B < 2 ^ 24)
     {s : Proc} {g : Ghost} {F : FSt} {W : WSt} (h : Back P s g F W) (x : Blk) (hx : ItemOK P.B s.w.inodes.length x)
@@ -303,25 +349,14 @@ theorem Back.storeFrag {P : Params} (hP : P.ans = serialAns) (hc : CodecOk P.cod
     ∃ s' extra effs, BlockProc.storeFrag P s x = .ok s' ∧
       Back P s' { g with items := g.items ++ extra, h := g.h ++ effs, m := g.m ++ effs } (F.store P x) W ∧
       Acct s' { g with items := g.items ++ extra, h := g.h ++ effs, m := g.m ++ effs } k ∧
-      s'.fe = s.fe ∧ s'.maxBacklog = s.maxBacklog := by
+      s'.fe = s.fe ∧ s'.maxBacklog = s.maxBacklog ∧ extra.length ≤ 1 := by
   obtain ⟨id, hid, hidn⟩ := hx.ino
   obtain ⟨s2, extra, hmr, hb2, f1, f2, f3, f4, f5⟩ := h.makeRoom hP ho x.data.length
+  have hex : extra.length ≤ 1 := by
+    have : boolNat s.fragBlock.isSome ≤ 1 := by unfold boolNat; split <;> omega
+    omega
   obtain ⟨hfi2, hfit⟩ := h.finv.makeRoom ho x.data.length
-  have hw2 : s2.w.inodes.length = s.w.inodes.length := by
-    have a := hb2.inodes
-    have b := h.inodes
-    have : s2.w.inodes.length = (applyEffs (List.replicate s2.w.inodes.length ({} : Inode)) g.h).length := by rw [← a]
-    rw [applyEffs_length] at this
-    -- both inode lists are `applyEffs … g.h` of a list of their own length; `makeRoom` does not touch `w`
-    unfold BlockProc.makeRoom at hmr
-    split at hmr
-    · split at hmr
-      · unfold enqueueBlock at hmr
-        split at hmr
-        · cases hmr
-        · simp only [Except.ok.injEq] at hmr; rw [← hmr]
-      · simp only [Except.ok.injEq] at hmr; rw [← hmr]
-    · simp only [Except.ok.injEq] at hmr; rw [← hmr]
+  have hw2 : s2.w.inodes.length = s.w.inodes.length := by rw [makeRoom_w hmr]
   obtain ⟨hb3, hidx, p1, p2, p3, p4, p5⟩ := hb2.place x hne hx.size hfit
   have hck := place_chunkOK (F.makeRoom P x.data.length) x hne x.chk (x.flags &&& blkDontCompress)
   obtain ⟨c', hins, hb4⟩ := hb3.insert hc hB x.data
@@ -350,7 +385,7 @@ theorem Back.storeFrag {P : Params} (hP : P.ans = serialAns) (hc : CodecOk P.cod
     cases hfb2 : s2.fragBlock with
     | none =>
       simp only
-      refine ⟨?_, ?_, ?_, ?_⟩
+      refine ⟨?_, ?_, ?_, ?_, hex⟩
       · exact hb5
       · unfold Acct at *
         simp only [p2, p3, p5, boolNat, if_true] at *
@@ -361,7 +396,7 @@ theorem Back.storeFrag {P : Params} (hP : P.ans = serialAns) (hc : CodecOk P.cod
       · rw [← f4, ← p4]
     | some fb0 =>
       simp only
-      refine ⟨?_, ?_, ?_, ?_⟩
+      refine ⟨?_, ?_, ?_, ?_, hex⟩
       · exact hb5.backlogIrrel _
       · apply Acct.releaseOld
         unfold Acct at *
@@ -400,7 +435,7 @@ theorem Back.deqFrag {P : Params} (hP : P.ans = serialAns) (hc : CodecOk P.codec
       Back P s' { g with items := rest ++ extra, pend := g.pend.tail, done := g.done ++ [x], h := g.h ++ effs, m := g.m ++ effs }
         (fStep P F x) W ∧
       Acct s' { g with items := rest ++ extra, pend := g.pend.tail, done := g.done ++ [x], h := g.h ++ effs, m := g.m ++ effs } k ∧
-      s'.fe = s.fe ∧ s'.maxBacklog = s.maxBacklog := by
+      s'.fe = s.fe ∧ s'.maxBacklog = s.maxBacklog ∧ extra.length ≤ 1 ∧ s'.w.inodes.length = s.w.inodes.length := by
   obtain ⟨hdq, hb0⟩ := h.takeFrag hP x rest hi hfb hfr
   have hpend : g.pend = x :: rest.filter (fun b => !isFB b) := by
     rw [← h.pend, hi]; simp [hfb]
@@ -430,7 +465,7 @@ theorem Back.deqFrag {P : Params} (hP : P.ans = serialAns) (hc : CodecOk P.codec
       (fun e he => by
         obtain ⟨h1, h2⟩ := mem_mkEff he
         exact Or.inr ⟨_, _, x, h2, List.mem_append_right _ List.mem_cons_self, hfr, h1, rfl⟩)
-    refine ⟨_, [], mkEff x.inode (.sparse x.index x.data.length), hdq, rfl, ?_, ?_, rfl, rfl⟩
+    refine ⟨_, [], mkEff x.inode (.sparse x.index x.data.length), hdq, rfl, ?_, ?_, rfl, rfl, by simp, modInode_length _ _ _⟩
     · simp only [List.append_nil]; exact hb1.backlogIrrel _
     · have := Acct.releaseOld (s := { s with pool := (poolDequeue P s.pool).1, w := modInode s.w x.inode (InoEff.sparse x.index x.data.length).app })
         (g := { g with items := rest, pend := g.pend.tail, done := g.done ++ [x] }) (k := k) hacct0
@@ -446,14 +481,16 @@ theorem Back.deqFrag {P : Params} (hP : P.ans = serialAns) (hc : CodecOk P.codec
       have hb2 := hb1.addEffs x.inode (.fragLoc c.index c.offset)
         (fun id' hid' => by rw [hid] at hid'; cases hid'; exact hidn)
         (fun e he => Or.inl ⟨_, _, (mem_mkEff he).2⟩)
-      refine ⟨_, [], mkEff x.inode (.fragLoc c.index c.offset), hdq, rfl, ?_, ?_, rfl, rfl⟩
+      refine ⟨_, [], mkEff x.inode (.fragLoc c.index c.offset), hdq, rfl, ?_, ?_, rfl, rfl, by simp, modInode_length _ _ _⟩
       · simp only [List.append_nil]; exact hb2.backlogIrrel _
       · have := Acct.releaseOld (s := { s with pool := (poolDequeue P s.pool).1, cachedFragBlk := c', w := modInode s.w x.inode (InoEff.fragLoc c.index c.offset).app })
           (g := { g with items := rest, pend := g.pend.tail, done := g.done ++ [x] }) (k := k) hacct0
         simpa [Acct] using this
     | none =>
       simp only
-      obtain ⟨s', extra, effs, hst, hb2, hac2, hfe, hmb⟩ := hb1.storeFrag hP hc hB x hxok hne ho' k hacct0
-      exact ⟨s', extra, effs, hdq, hst, hb2, hac2, hfe, hmb⟩
+      obtain ⟨s', extra, effs, hst, hb2, hac2, hfe, hmb, hex⟩ := hb1.storeFrag hP hc hB x hxok hne ho' k hacct0
+      refine ⟨s', extra, effs, hdq, hst, hb2, hac2, hfe, hmb, hex, ?_⟩
+      have := inodes_length_storeFrag hst
+      exact this
 
 end Sqfs.BlockProc
